@@ -233,11 +233,30 @@ SeqD3(S) == SeqU(SeqD2(S)) \cup Binary(SeqD2(S), SeqD0(S)) \cup Binary(SeqD0(S),
    (Parameterless constant definitions are evaluated by TLC at start-up, hence the selection by name.) *)
 SliceSet(w) == IF w = "wide" THEN SlicesW ELSE SlicesS
 Tag(t, E) == {<<t, e>> : e \in E}
-SeqBase(shape, w) == Tag("pick", IF shape = "d1" THEN SeqD0(SliceSet(w)) ELSE SeqD1(SliceSet(w)))
+
+(* Chains: op_n(... op_2(op_1(leaf)) ...) where every op is a unary combinator or a Plus whose other operand (on either
+   side) is a leaf, over a reduced alphabet: each combinator wraps (or, like DropWhile and Plus with a nil side, hands
+   back) an iterator whose inner combinators may already have changed their mode - plus switched to rhs, takeWhile
+   finished, dropWhile / filter skipped ahead, join on a later inner sequence.  Shape "c3": every chain of depth 3,
+   "c4": depth 4.  A chain under construction is tagged "c" \o kind \o rounds-left (kind "s" here; PairIter adds
+   "p" = pair kind and "m" = seq kind with a pair node inside); the shorter chains are part of shape "d2". *)
+ChainSlices == {<<>>, <<1>>, <<2, 1, 3>>}
+ChainLeaves == Leaves(ChainSlices, {2})
+ChainU(E) == Unary(E, {"lt2", "even", "tt"}, {"inc"}, {"oddnil", "two"})    \* lt2 holds on all of <<1>>, even on a prefix of <<2, 1, 3>>
+ChainSteps(e) == ChainU({e}) \cup Binary({e}, ChainLeaves) \cup Binary(ChainLeaves, {e})
+ChainTag(kind, n) == "c" \o kind \o ToString(n)
+ChainTags == {ChainTag(k, n) : k \in {"s", "p", "m"}, n \in 1..4}
+ChainKind(tag) == CHOOSE k \in {"s", "p", "m"} : \E n \in 1..4 : tag = ChainTag(k, n)
+ChainLeft(tag) == CHOOSE n \in 1..4 : \E k \in {"s", "p", "m"} : tag = ChainTag(k, n)
+ChainBase(shape) == Tag(ChainTag("s", IF shape = "c3" THEN 3 ELSE 4), ChainLeaves)
+ChainWraps(tag, e) == Tag(IF ChainLeft(tag) = 1 THEN "seq" ELSE ChainTag("s", ChainLeft(tag) - 1), ChainSteps(e))
+SeqBase(shape, w) == IF shape \in {"c3", "c4"} THEN ChainBase(shape)
+                     ELSE Tag("pick", IF shape = "d1" THEN SeqD0(SliceSet(w)) ELSE SeqD1(SliceSet(w)))
 SeqWraps(tag, e, shape, w) ==
   LET D0 == SeqD0(SliceSet(w))
       full == {e} \cup SeqU({e}) \cup Binary({e}, IF shape = "d1" THEN D0 ELSE SeqD1(SliceSet(w)))    \* base D(n) -> all of D(n+1)
-  IN CASE tag = "pick" /\ shape \in {"d1", "d2"} -> Tag("seq", full)
+  IN CASE tag \in ChainTags -> ChainWraps(tag, e)
+       [] tag = "pick" /\ shape \in {"d1", "d2"} -> Tag("seq", full)
        [] tag = "pick" /\ shape = "d3" -> Tag("pick2", full)
        [] tag = "pick2" -> Tag("seq", SeqU({e}) \cup Binary({e}, D0) \cup Binary(D0, {e}))
 ====
